@@ -12,26 +12,34 @@ import math, random, itertools
 from lib.core import zlit, zlist
 
 MANIFEST = {
-    'text': 'Value-level theorems in Coq (Masked.v, Divsteps.v): for every random tape in the range the code draws from and '
-            'every field prime p > 2^(l+k+1), the masked-opening protocols trunc (floor or floor+1), lsb, _mod/mod/floor '
-            'division by a public divisor, sgn (LT/EQ/full, for -2^l <= a < 2^l, which covers a-b of two l-bit values), '
-            'is_zero_public (good tape r != 0), _is_zero (Legendre-symbol test, good tape), pow, abs, if_else/if_swap, '
-            'prod/all pairing recursion (every length), in_prod, matrix_prod, trailing_zeros/gcp2 compute exactly the Python '
-            'integer result modulo p; Bernstein-Yang divsteps invariants for all step counts, gcd/gcdext/inverse/lcm correct '
-            'under the explicit hypothesis BY_bound l (proved by exhaustive computation for small l). Tie: generated '
-            'expression programs (all C01 operations, inputs shared with mpc.input, values concentrated at the range '
-            'extremes) run in the multi-party simulator for (m,t) in {(1,0),(2,0),(3,1),(4,1),(5,2)} x PRSS on/off '
-            '(thorough adds (7,3)); every node is opened and compared with Python int arithmetic on every receiving party.',
+    'text': 'Value-level theorems in Coq (Masked.v, Divsteps.v; 26 statements in props/C01.v, all closed under the global '
+            'context): for every random tape in the range the code draws from and every field prime p > 2^(l+k+1), the '
+            'masked-opening protocols trunc (floor or floor+1), lsb, _mod and floor division by a public divisor b > 0 '
+            '(Python sign convention), sgn in its LT / EQ / full variants (for -2^l <= a < 2^l, which covers a-b of two l-bit '
+            'values), abs, is_zero_public (good tape r != 0; bad tape characterised), pow by square-and-multiply, '
+            'if_else/if_swap, the n%2 pairing recursion of prod/all (every length), sum, in_prod, matrix_prod incl. the '
+            'symmetric A*A^T shortcut compute exactly the Python integer result modulo p; Bernstein-Yang divsteps '
+            'invariants for all step counts (f odd, gcd preserved, Bezout bookkeeping, delta parity and delta_gt0 '
+            'equivalence), gcd/lcm/gcdext/inverse correct under the explicit hypothesis BY_bound l, which is proved by '
+            'exhaustive computation for l <= 9. Tie: generated expression programs (all C01 operations, inputs shared with '
+            'mpc.input from varying senders, values concentrated at the range extremes, intermediate values within l bits) '
+            'run in the multi-party simulator for (m,t) in {(1,0),(2,0),(3,1),(4,1),(5,2)} x PRSS on/off (thorough adds '
+            '(7,3)), l in {8,16,32,64}; every node is opened and compared with Python int arithmetic on every receiving '
+            'party, and all receiving parties must agree.',
     'note': 'Share-level layer (Shamir sharing, reshare, output recombination, PRSS) is proved elsewhere (C11-C15) and here '
-            'covered only by the simulator runs. Correspondence model<->code for the masked protocols compares (a) the Coq '
-            'model evaluated on the operands seen in the runs under many random in-range tapes with the Python oracle and '
-            'with the outputs the implementation produced for the same operands (for trunc: implementation result must lie '
-            'in the set of model results), and (b) for m=1 the model on the tape actually drawn by the implementation '
-            '(random_bits/_randoms results logged from outside) with the value the implementation computed; tapes of '
-            'multi-party runs are not extracted. gcd/lcm/gcdext/inverse theorems are partial (BY_bound l assumed for '
-            'l above the exhaustively checked bound; Bernstein-Yang Theorem 11.2 not re-proved). Probabilistic tests '
-            '(is_zero_public, _is_zero, reciprocal) are exact only outside an explicit bad set of tapes of measure <= ~2^-k. '
-            'Operator-to-method mapping of sectypes.SecureNumber is covered by the runs only.',
+            'covered only by the simulator runs. Correspondence model<->code for the masked protocols: the Coq models are '
+            'evaluated by vm_compute on the operands that occurred in the runs (plus boundary operands up to +-2^l) under '
+            'several in-range tapes each (all-minimal, all-maximal, random) and must equal the Python oracle and the outputs '
+            'the implementation produced for the same operands (for trunc: the implementation result must lie in the '
+            'model/oracle set {floor, floor+1}); the tapes actually drawn in the runs are NOT extracted, so the tie is '
+            'input/output level, not trace level. Missing: _is_zero (Legendre-symbol zero test used only for l > 60; '
+            'exercised by the l = 64 programs only), trailing_zeros/gcp2 bit protocols (gcp2 is idealised in Divsteps.v), '
+            'tournament min/max (other property), the b = 254 addition chain of pow (modelled and compared, theorem '
+            'excludes e = 254), composition theorem over expression programs. gcd/lcm/gcdext/inverse theorems are partial '
+            '(BY_bound l assumed for l > 9: Bernstein-Yang Theorem 11.2 not re-proved; range of inverse proved for l <= 7). '
+            'Probabilistic steps are exact only outside explicit bad tapes: is_zero_public r = 0, and _mod when the masked '
+            'opening wraps (only possible for r_divb = 0, probability < 2^-k). Operator-to-method mapping of '
+            'sectypes.SecureNumber is covered by the runs only.',
     'technique': 'Coq proofs of masked-opening integer lemmas + multi-party simulator differential testing against Python ints',
 }
 
